@@ -674,6 +674,29 @@ Lemma run_reach : forall G s programs sched c tr,
   run G s programs sched = Some (c, tr) -> reach G (init_config s programs) c tr.
 Proof. intros. eapply run_from_reach; [constructor | exact H]. Qed.
 
+(* ---- responses are values *)
+Lemma calls_of_app : forall a b, calls_of (a ++ b) = calls_of a ++ calls_of b.
+Proof. intros. unfold calls_of. apply flat_map_app. Qed.
+
+(* A response, once given, is a value recorded in the trace: however the run continues ([ext] = the later
+   events, e.g. further updates), the call is still part of the history with the SAME response, and that response
+   is the specification's response in one state of a sequential execution of the whole (extended) run. *)
+Theorem responses_are_values : forall G s programs c tr ext c' x,
+  (forall o, G o = true) ->
+  reach G (init_config s programs) c tr -> In x (calls_of tr) ->
+  reach G (init_config s programs) c' (ext ++ tr) -> quiescent c' ->
+  In x (calls_of (ext ++ tr)) /\
+  exists before after,
+    Permutation (before ++ x :: after) (calls_of (ext ++ tr)) /\ legal s before /\
+    c_resp x = snd (seq_step (run_calls s before) (c_op x)) /\
+    Forall (fun u => c_inv x < c_res u) after.
+Proof.
+  intros G s programs c tr ext c' x HG HR Hin HR' HQ.
+  assert (Hin' : In x (calls_of (ext ++ tr))) by (rewrite calls_of_app; apply in_or_app; right; exact Hin).
+  split; [exact Hin'|]. eapply call_snapshot; [|exact Hin'].
+  eapply guarded_linearizable_quiescent; eauto.
+Qed.
+
 (* ================================================================== *)
 (** * D. what the lock buys *)
 
